@@ -83,4 +83,10 @@ FFromInt(i) == IF i = 0 THEN FZero(0) ELSE FRound(IF i < 0 THEN 1 ELSE 0, BFromS
 \* comparison of values: -1, 0, 1
 FCmp(a, b) ==
   LET d == FSub(a, b) IN IF FIsZero(d) THEN 0 ELSE IF d.sg = 1 THEN -1 ELSE 1
+\* |a - b| <= 2^-k * max(|a|, |b|)  (both zero counts as close)
+FClose(a, b, k) ==
+  IF FIsZero(a) /\ FIsZero(b) THEN TRUE
+  ELSE LET d == FSub(a, b)
+           big == IF FIsZero(a) THEN b ELSE IF FIsZero(b) THEN a ELSE (IF FCmp([a EXCEPT !.sg = 0], [b EXCEPT !.sg = 0]) >= 0 THEN a ELSE b)
+       IN FIsZero(d) \/ (d.e + BBitLen(d.m)) <= (big.e + BBitLen(big.m)) - k
 =====================================================================
